@@ -92,7 +92,7 @@ func (s *Signer) setKey(name string, key *rsa.PrivateKey) {
 }
 
 func (s *Signer) generateKey(keyVersionName string, bitSize int) (*rsa.PrivateKey, error) {
-	priv, err := rsa.GenerateKey(s.Rand, bitSize)
+	priv, err := generateRSAKey(s.Rand, bitSize)
 	if err != nil {
 		return nil, err
 	}
